@@ -869,3 +869,183 @@ def check_C20(tier, seed):
     rep.assumptions += ["(a) hole contents are valid per the documentation (layout bytes, valid escapes, printable class bodies): the subset both front ends must understand",
                         "(b) generators run with their working directory inside /repo (goimports resolves github.com/mna/pigeon/ast through the module of the cwd)"]
     return rep.finish()
+
+
+def unicode_class_names():
+    import re
+    txt = open(os.path.join(REPO, "unicode_classes.go")).read()
+    return re.findall(r'^\s*"([A-Za-z_0-9]+)":\s*true', txt, re.M)
+
+
+def c04_witness(r1, i1, r2, i2):
+    """A grammar whose rule r has a code block at expression index i (for both pairs)."""
+    def rule_text(r, i, val):
+        code = "{ return %d, nil }" % val
+        if i == 1:
+            return "%s <- 'x' %s\n" % (r, code)
+        lits = " ".join("'a'" for _ in range(i - 2))
+        if i == 2:
+            return "%s <- ( 'z' %s ) 'y'\n" % (r, code)
+        return "%s <- %s ( 'z' %s )\n" % (r, lits, code)
+    top = "S <- %s / %s\n" % (r1, r2) if r1 != r2 else "S <- %s\n" % r1
+    return "{\npackage p\n}\n" + top + rule_text(r1, i1, 1) + (rule_text(r2, i2, 2) if r1 != r2 else "")
+
+
+def check_C04(tier, seed):
+    rep = Report("C04", tier, seed, "other")
+    w = Work()
+    w.build_pigeon()
+    quick = tier == "quick"
+    # (1) kernel: method names are injective in (rule name, expression index) -- solver-decided
+    ov = RepoOverlay(w, "builder", "builder", {"zz_verif_c04.go": open(os.path.join(VERIF, "harness", "c04_builder.go")).read()}, ["Harness_C04name"])
+    res = ov.engine(harness="Harness_C04name$", nmin=0, nmax=8, timeout_s=120, sample_every=5)
+    if res.get("errors"):
+        rep.inconclusive.append("engine: " + "; ".join(res["errors"])[:600])
+    paths = asserts = discharged = queries = 0
+    solver_s = 0.0
+    cexs = []
+    for j in res.get("jobs") or []:
+        paths += j["paths"]; asserts += j["assertions_checked"]; discharged += j["assertions_discharged"]; queries += j["queries"]; solver_s += j["solver_s"]
+        for m in j.get("inconclusive") or []:
+            rep.inconclusive.append("C04name n=%d: %s" % (j["arg"], m))
+        for s in (j.get("samples") or [])[:1]:
+            rep.samples.append({"harness": "Harness_C04name", "arg": j["arg"], "model": s["model"]})
+        cexs += [(j["arg"], c) for c in j.get("counterexamples") or []]
+    confirmed = 0
+    for arg, cx in cexs[:3]:
+        m = cx["model"]
+        l1, l2 = 1 + arg % 3, 1 + arg // 3
+        r1 = "".join(chr(m.get("r1_%d" % k, 65)) for k in range(l1))
+        r2 = "".join(chr(m.get("r2_%d" % k, 65)) for k in range(l2))
+        i1, i2 = m.get("i1", 1), m.get("i2", 1)
+        text = c04_witness(r1, i1, r2, i2)
+        rel = "c04_witness_%d/p" % confirmed
+        ok, err, code = gen_parser(w, text, [], rel)
+        doc = {"property": "C04", "case": "funcName", "msg": cx["msg"], "model": m, "peg": text, "tags": [], "input": [],
+               "witness": {"rule1": r1, "index1": i1, "rule2": r2, "index2": i2}}
+        if not ok:
+            rep.unconfirmed.append("C04name: witness grammar for %s was rejected by the tool: %s" % (doc["witness"], err[-200:]))
+            continue
+        b = subprocess.run(["go", "build", "./" + rel], cwd=w.mod, env=base_env(), capture_output=True, text=True, errors="replace")
+        if b.returncode == 0:
+            rep.unconfirmed.append("C04name: witness grammar for %s compiles; the engine's collision does not reproduce" % doc["witness"])
+            continue
+        confirmed += 1
+        doc["native"] = b.stderr[-400:]
+        k = match_known("C04", doc)
+        if k is not None:
+            short = "%s %s" % (k["id"], k["what"])
+            if short not in rep.known:
+                rep.known.append(short)
+            rep.cov.setdefault("known_finding_witnesses", []).append("rules %s (code block at index %d) and %s (index %d): %s" % (r1, i1, r2, i2, b.stderr.strip().splitlines()[-1][:160]))
+        else:
+            rep.violation(save_replay("C04", doc), "rules %s (block at expression index %d) and %s (index %d) both yield method on%s%d: generated code does not compile: %s" % (
+                r1, i1, r2, i2, r1, i1, b.stderr.strip()[-200:]))
+    # (2) by-product (concrete): generated parsers for catalogue grammars x flag sets type-check, vet and initialise
+    classes = unicode_class_names() + list("LMNCPZS")
+    allcls = gspec.grammar("c04_allclasses", [gspec.rule("S", gspec.act(gspec.label("x", gspec.star(gspec.cls(classes=classes))), gspec.b_rec("s")))])
+    base = [allcls] + cores.composites()[:3] + cores.state_catalogue()[:2] + cores.throw_catalogue()[:2] + cores.context_catalogue()[:2] + cores.fault_catalogue()[:1]
+    if not quick:
+        base += cores.composites()[3:] + cores.state_catalogue()[2:8] + cores.throw_catalogue()[2:] + cores.opt_catalogue()[::3] + cores.pair_core()[::10]
+    flag_bits = [("-optimize-parser", "o"), ("-optimize-grammar", "g"), ("-optimize-basic-latin", "b"), ("-support-left-recursion", "l"), ("-nolint", "n")]
+    combos = []
+    rnd = random.Random(seed)
+    all_masks = list(range(32))
+    cases = []
+    for gi, g in enumerate(base):
+        masks = all_masks if not quick else sorted(set([0, 31] + rnd.sample(all_masks, 4)))
+        for mask in masks:
+            flags = [f for k, (f, _) in enumerate(flag_bits) if mask >> k & 1]
+            tag = "".join(c for k, (_, c) in enumerate(flag_bits) if mask >> k & 1) or "none"
+            FLAGSETS["c04_" + tag] = flags
+            if gspec.uses_state(g) and not gspec.has_state_block(g) and "-optimize-parser" in flags:
+                continue
+            cases.append(ref_case(g, ["C04init"], flagset="c04_" + tag))
+    lr = [ref_case(g, ["C04init"], flagset="lr") for g in cores.lr_catalogue()[: (2 if quick else 5)]]
+    cases += lr
+    catcheck.prepare(w, cases)
+    gen_fail = [c for c in cases if c.gen_errors]
+    for c in gen_fail:
+        # an accepted catalogue grammar that the tool rejects under some flag set
+        pass
+    agg = catcheck.explore(w, rep, cases, "C04", r"Harness_C04init$", 1, 120, "ref", seed=seed, validate_pkgs=4, nmin=1)
+    # a type-check failure of generated code surfaces as an engine package error: confirm natively
+    good = [c for c in cases if not c.gen_errors]
+    vet = subprocess.run(["go", "vet"] + ["./" + c.harness_rel for c in good], cwd=w.mod, env=base_env(), capture_output=True, text=True, errors="replace")
+    vet_ok = vet.returncode == 0
+    if not vet_ok:
+        lines = [l for l in vet.stderr.splitlines() if l and not l.startswith("#")]
+        # report per package
+        seen = set()
+        for l in lines[:20]:
+            pk = l.split("/p/")[0]
+            if pk in seen:
+                continue
+            seen.add(pk)
+            cid = pk.lstrip("./")
+            cs = next((c for c in good if c.id == cid), None)
+            doc = {"property": "C04", "case": cid, "msg": "go vet / build: " + l[:200], "peg": cs.peg if cs else "", "flags": cs.meta.get("flagset") if cs else "", "tags": [], "input": [], "model": {}}
+            k = match_known("C04", doc)
+            if k is not None:
+                rep.known.append("%s %s" % (k["id"], k["what"]))
+            else:
+                rep.violation(save_replay("C04", doc), "generated parser of catalogue grammar %s does not build/vet: %s" % (cid, l[:200]))
+    # (3) optimizer-made label clash (two rules with the same label, one inlined into the other)
+    clash = "{\npackage p\n}\nS <- v:'a' A { return v, nil }\nA <- v:'b' 'c'?\n"
+    ok, err, code = gen_parser(w, clash, ["-optimize-grammar"], "c04_clash/p")
+    if ok:
+        b = subprocess.run(["go", "build", "./c04_clash/p"], cwd=w.mod, env=base_env(), capture_output=True, text=True, errors="replace")
+        if b.returncode != 0:
+            doc = {"property": "C04", "case": "inlined_label_clash", "msg": "generated code does not compile: " + b.stderr.strip()[-200:], "peg": clash, "flags": ["-optimize-grammar"], "tags": ["inlined-label-clash"], "input": [], "model": {}}
+            k = match_known("C04", doc)
+            if k is not None:
+                short = "%s %s" % (k["id"], k["what"])
+                if short not in rep.known:
+                    rep.known.append(short)
+            else:
+                rep.violation(save_replay("C04", doc), "S <- v:'a' A {...}, A <- v:'b' 'c'? with -optimize-grammar: " + b.stderr.strip()[-200:])
+    rep.cov.update({
+        "explanation": "Reduced claim (DESIGN.md §5): 'compiles and passes vet' is decided by the Go type checker over emitted text and has no SMT encoding. Solver-decided: injectivity of the generated method names in (rule name, expression index), names of 1..3 symbolic identifier characters, indices 1..999 (strconv.Itoa summarised symbolically). Concrete by-product: %d generated parsers (catalogue grammars x flag subsets, one grammar using all %d Unicode classes the front end accepts) are type-checked (go/packages), vetted (go vet) and initialised and run on all 1-byte inputs in the engine." % (len(good), len(classes)),
+        "obligations": asserts + len(good) * 2, "discharged": discharged + (len(good) * 2 if vet_ok and not rep.inconclusive else 0),
+        "kernel_paths": paths, "kernel_queries": queries, "kernel_solver_s": round(solver_s, 2), "kernel_counterexamples": len(cexs), "kernel_counterexamples_confirmed_by_go_build": confirmed,
+        "generated_parsers_checked": len(good), "go_vet_clean": vet_ok, "unicode_classes": len(classes),
+        "engine_paths": agg["paths"], "engine_queries": agg["queries"], "evaluations": paths + agg["paths"], "distinct_nontrivial": agg["completed"] + paths,
+        "functions_encoded": ["(*builder).funcName", "strconv.Itoa (symbolic summary)", "generated package init + Parse"],
+        "rule": "kernel: one path per digit-count combination of the two indices; by-product: one package per grammar x flag set",
+    })
+    rep.assumptions += ["well-typed code blocks (the menu blocks)", "-cache, -debug, -no-recover, -o, -x, -receiver-name affect main() only and are outside"]
+    return rep.finish()
+
+
+def check_C18(tier, seed):
+    quick = tier == "quick"
+    cat = cores.state_catalogue()[:: (4 if quick else 1)] + cores.composites()[: (3 if quick else 10)] + cores.context_catalogue()[:2] + cores.throw_catalogue()[:2]
+    lr = cores.lr_catalogue()[: (1 if quick else 3)]
+    rep = Report("C18", tier, seed, "other")
+    w = Work()
+    w.build_pigeon()
+    N, tmo = (1, 120) if quick else (2, 1800)
+    cases = []
+    for g in cat:
+        for fs in ("std", "opt"):
+            if fs == "opt" and gspec.uses_state(g) and not gspec.has_state_block(g):
+                continue
+            cases.append(ref_case(g, ["C18"], flagset=fs))
+    for g in lr:
+        cases.append(ref_case(g, ["C18"], flagset="lr"))
+    catcheck.prepare(w, cases)
+    agg = catcheck.explore(w, rep, cases, "C18", r"Harness_C18$", N, tmo, "ref", seed=seed, validate_pkgs=5 if quick else 16)
+    rep.cov.update({
+        "explanation": "Goroutine interleavings are not encoded (DESIGN.md §5). Decided by the solver for all pairs of inputs within the bound on the catalogue: (1) during Parse no store, map update or delete targets an object reachable from a package-level variable of the generated package (engine monitor on every Store/MapUpdate/delete); (2) a map is empty when it is handed to sync.Pool.Put and is not read or written again until Pool.Get returns it; (3) Pool.Get returns nondeterministically any pooled map or a fresh one and the result of a Parse is the same as when it ran first. Given 1-3 and the linearizability of sync.Pool (trusted), two concurrent calls share no mutable location: every schedule yields the sequential results and there is no data race - a paper argument, stated as such.",
+        "evaluations": agg["paths"], "distinct_nontrivial": agg["completed"], "programs": len(cases),
+        "paths": agg["paths"], "queries": agg["queries"], "solver_s": round(agg["solver_s"], 2), "assertions_checked": agg["asserts"],
+        "assertions_discharged": agg["discharged"], "counterexamples_from_solver": agg["cex"],
+        "cross_validated_paths": agg["validated"], "traces_validated_against_impl": agg["validated_ok"],
+        "bounds": {"input_bytes_max_each": N, "calls": "Parse(b) alone, then Parse(a), then Parse(b) again, Memoize symbolic per call (standard parsers)", "pool": "at most one Get per path deviates from LIFO (fresh map or oldest pooled map)"},
+        "functions_encoded": RUNTIME_FUNCS + ["sync.Pool model: LIFO list + nondeterministic Get"],
+        "rule": "one evaluation = one explored path (pair of input classes x pool choices x options)",
+        "stubs_and_intrinsics": agg.get("externals", []),
+    })
+    rep.assumptions += ["sync.Pool is linearizable (trusted)", "user code blocks that touch package-level state are outside (menu blocks only write through the documented stores)",
+                        "schedules are covered by the ownership argument, not enumerated; the race detector's view of the standard library is outside"]
+    return rep.finish()
